@@ -61,6 +61,8 @@ impl<'a> Parser<'a> {
 //@fn Parser.parse_number
 //@fn Parser.parse_expr
 //@fn Parser.parse_factor
+//@fn Parser.parse_data_row
+//@fn Parser.parse_stmt_block
 //@fn Parser.get
 //@fn Parser.peek
 //@fn Parser.peek_span
